@@ -84,6 +84,7 @@ type hsClient struct {
 	URL        string
 	Debug      int  // 0 plain Dialer.Upgrade, 1 DebugDialer (both callbacks), 2 OnRequest only, 3 OnResponse only, 4 plain Dialer.Dial
 	Wrap       bool // Dial paths: the application installs its own WrapConn
+	Reuse      bool // DebugDialer: the same value has already been used for an earlier Dial
 }
 
 type hsServer struct {
@@ -106,7 +107,7 @@ type hsServer struct {
 // The last entry is kept out of the draw: a subprotocol that is not an RFC
 // token is a caller error the library does not validate; peers then may
 // disagree, which no property promises otherwise (DESIGN §8).
-var protoPool = []string{"chat", "superchat", "v1.proto", "x", "graphql-ws", strings.Repeat("long-subprotocol-", 6) + "end", "bad token"}
+var protoPool = []string{"chat", "Chat", "CHAT", "superchat", "v1.proto", "x", "X", "graphql-ws", strings.Repeat("long-subprotocol-", 6) + "end", "bad token"}
 var extNames = []string{"permessage-deflate", "x-webkit-deflate-frame", "foo", "bar-ext"}
 var bufSizesHS = []int{0, 16, 17, 32, 64, 128, 4096}
 
@@ -166,6 +167,7 @@ func drawHS(r *eng.Run) (hsClient, hsServer) {
 	if r.T.Chance(sim.LEntry, 1, 3) {
 		c.Debug = 1 + r.T.Int(sim.LEntry, 4)
 		c.Wrap = r.T.Bool(sim.LCfg)
+		c.Reuse = r.T.Bool(sim.LCfg)
 	}
 
 	s.Kind = []int{0, 0, 0, 1, 1, 2}[r.T.Int(sim.LEntry, 6)]
@@ -479,6 +481,18 @@ func runClient(r *eng.Run, c hsClient, p *Pipe) *hsOutcome {
 func runClientConn(r *eng.Run, c hsClient, p net.Conn, sent func() []byte, restLen int) *hsOutcome {
 	o := &hsOutcome{}
 	d := c.dialer()
+	// warm, if the transport is a scripted pipe, makes a second transport with
+	// the same input; reseed restores the nonce source.
+	var warm func() net.Conn
+	reseed := func() {}
+	if pp, ok := p.(*Pipe); ok && clientSeed != nil {
+		warm = func() net.Conn {
+			q := NewPipe(r, pp.In)
+			return q
+		}
+		seed := *clientSeed
+		reseed = func() { rand.Seed(seed) }
+	}
 	var (
 		br *bufio.Reader
 		hs ws.Handshake
@@ -506,6 +520,20 @@ func runClientConn(r *eng.Run, c hsClient, p net.Conn, sent func() []byte, restL
 			dd.OnResponse = func(b []byte) { o.OnResp, o.HasOnResp = append([]byte(nil), b...), true }
 		}
 		var nc net.Conn
+		if c.Reuse && c.Debug != 4 && warm != nil {
+			// An earlier Dial through the same DebugDialer value (its own
+			// transport, same response), then the one under observation.
+			first := warm()
+			saveNetDial := dd.Dialer.NetDial
+			dd.Dialer.NetDial = func(ctx context.Context, network, addr string) (net.Conn, error) { return first, nil }
+			reseed()
+			if _, fbr, _, _ := dd.Dial(context.Background(), c.URL); fbr != nil {
+				ws.PutReader(fbr)
+			}
+			dd.Dialer.NetDial = saveNetDial
+			o.OnReq, o.OnResp, o.HasOnReq, o.HasOnResp, o.Wrapped = nil, nil, false, false, nil
+			reseed()
+		}
 		if c.Debug == 4 {
 			nc, br, hs, o.Err = d.Dial(context.Background(), c.URL)
 		} else {
@@ -578,9 +606,14 @@ func pipeFor(r *eng.Run, in []byte, seg int) *Pipe {
 	return p
 }
 
+// clientSeed, when set, is the math/rand seed in force for dialer runs on
+// scripted pipes (needed to repeat a Dial with the same nonce).
+var clientSeed *int64
+
 // roundTrip runs client(no input) -> server(request) -> client(response).
 func roundTrip(r *eng.Run, c hsClient, s hsServer, rseed int64, segS, segC int) *hsTrip {
 	t := &hsTrip{C: c, S: s, RSeed: rseed}
+	clientSeed = &rseed
 	rand.Seed(rseed)
 	plain := c
 	plain.Debug = 0 // the request is obtained without relying on fault behaviour of the wrappers
